@@ -121,20 +121,22 @@ Record Inv (s : state) : Prop := mkInv {
   i_cnt : forall f, cget f (m_fields (st_mem s)) = tot f (m_data (st_mem s));
   i_nodup : NoDup (map fst (m_fields (st_mem s)));
   i_meta : forall k, k < 3 -> mget k (st_mmeta s) = mget k (s_meta (st_head s));
+  i_ftimes : m_ftdirty (st_mem s) = false -> m_ftimes (st_mem s) = ft_of (m_data (st_mem s));
+  i_compiled : forall b, st_compiled s = Some b -> mget k_json_schema (s_meta (st_head s)) = Some b;
 }.
 
 Lemma inv_init : Inv init_state.
-Proof. constructor; simpl; try reflexivity; try constructor. Qed.
+Proof. constructor; simpl; try reflexivity; try constructor; discriminate. Qed.
 
 Lemma storeAndUpdate_inv s id new0 user conds replace t s' :
   Inv s -> storeAndUpdate repaired s id new0 user conds replace t = Ok s' -> Inv s'.
 Proof.
   intros I. unfold storeAndUpdate.
   destruct (omem (fuser s_bodyid) new0 || omem (ftime s_bodyid) new0); [discriminate|].
+  destruct (bad_stamp new0); [discriminate|].
   destruct (updateJSON user conds replace t (nget id (s_data (st_head s))) new0) as [orig1 new'].
-  cbn [v_cnt repaired].
-  destruct (set_ftimes new' (m_ftimes (st_mem s))) as [ft| |]; cbn [res_bind]; try discriminate.
-  destruct I as [I1 I2 I3 I4 I5 I6].
+  cbn [v_cnt v_ftime repaired].
+  destruct I as [I1 I2 I3 I4 I5 I6 I7 I8].
   rewrite I3, (addBodyID_sorted _ id I2). cbn [res_bind].
   intro H; apply Ok_inj in H; subst s'. constructor; cbn.
   - now rewrite I1.
@@ -144,14 +146,17 @@ Proof.
     destruct (nget id (m_data (st_mem s))); cbn [occ]; lia.
   - apply nodup_fold_cadd, nodup_fold_cadd, I5.
   - exact I6.
+  - discriminate.
+  - exact I8.
 Qed.
 
-Lemma putData_inv s key body valid user conds replace t s' :
-  Inv s -> putData repaired s key body valid user conds replace t = Ok s' -> Inv s'.
+Lemma putData_inv s key body vd user conds replace t s' :
+  Inv s -> putData repaired s key body vd user conds replace t = Ok s' -> Inv s'.
 Proof.
   intro I. unfold putData.
   destruct (st_locked s); [discriminate|]. destruct (negb (nonempty user)); [discriminate|].
-  destruct (key =? 0); [discriminate|]. destruct (negb valid); [discriminate|].
+  destruct (key =? 0); [discriminate|].
+  match goal with |- context [negb ?v] => destruct (negb v); [discriminate|] end.
   destruct (oget s_bodyid (obj_of_list body)) as [[| | z | | | |]|]; try discriminate.
   destruct ((0 <=? z)%Z && (z <=? Z.of_N max_u64)%Z && (Z.to_N z =? key)); [|discriminate].
   now apply storeAndUpdate_inv.
@@ -161,14 +166,14 @@ Lemma putKVs_inv items user conds replace : forall s,
   Inv s -> Inv (fst (putKVs repaired s items user conds replace)).
 Proof.
   induction items as [|it r IH]; intros s I; simpl; [exact I|].
-  destruct (putData repaired s (kv_key it) (kv_body it) (kv_valid it) user conds replace (kv_time it)) eqn:E; simpl; try exact I.
+  destruct (putData repaired s (kv_key it) (kv_body it) (kv_vd it) user conds replace (kv_time it)) eqn:E; simpl; try exact I.
   apply IH. eapply putData_inv; eauto.
 Qed.
 
 Lemma deleteData_inv s id s' : Inv s -> deleteData repaired s id = Ok s' -> Inv s'.
 Proof.
   intros I. unfold deleteData. destruct (st_locked s); [discriminate|].
-  destruct I as [I1 I2 I3 I4 I5 I6].
+  destruct I as [I1 I2 I3 I4 I5 I6 I7 I8].
   destruct (nget id (m_data (st_mem s))) as [o|] eqn:G.
   - rewrite I3, (deleteBodyID_sorted repaired _ id eq_refl I2). cbn [res_bind].
     intro H; apply Ok_inj in H; subst s'. constructor; cbn.
@@ -178,6 +183,8 @@ Proof.
     + intro f. rewrite cget_fold_cadd, I4, tot_ndel, G. lia.
     + now apply nodup_fold_cadd.
     + exact I6.
+    + discriminate.
+    + exact I8.
   - intro H; apply Ok_inj in H; subst s'. constructor; cbn; try assumption.
     rewrite <- I1. clear - G. induction (m_data (st_mem s)) as [|[k v] r IH]; simpl in *; [reflexivity|].
     destruct (id =? k); [discriminate|]. now rewrite <- IH.
@@ -205,43 +212,49 @@ Proof.
     repeat rewrite mget_mset; destruct C as [-> | [-> | ->]]; simpl; congruence.
 Qed.
 
-Lemma loadMemDB_inv d m : nsorted d -> loadMemDB d = Ok m ->
-  m_data m = d /\ m_ids m = map fst d /\ m_fields m = scan_counts d.
+Lemma loadMemDB_inv d : nsorted d ->
+  m_data (loadMemDB d) = d /\ m_ids (loadMemDB d) = map fst d /\ m_fields (loadMemDB d) = scan_counts d
+  /\ m_ftimes (loadMemDB d) = ft_of d.
 Proof.
-  intros S. unfold loadMemDB. rewrite (fold_nset_sorted d S).
-  destruct (init_ftimes d []); cbn [res_bind]; try discriminate.
-  intro H; apply Ok_inj in H; subst m. cbn. rewrite sort_ids_sorted by exact S. auto.
+  intros S. unfold loadMemDB. rewrite (fold_nset_sorted d S). cbn. rewrite sort_ids_sorted by exact S. auto.
 Qed.
 
-Lemma reload_inv s s' : Inv s -> reload repaired s = Ok s' -> Inv s' /\ st_head s' = st_head s /\ st_parents s' = st_parents s /\ st_locked s' = st_locked s.
+Lemma reload_inv s : Inv s -> Inv (reload repaired s).
 Proof.
-  intros [I1 I2 I3 I4 I5 I6]. unfold reload.
-  destruct (loadMemDB (s_data (st_head s))) as [m| |] eqn:L; cbn [res_bind]; try discriminate.
-  intro H; apply Ok_inj in H; subst s'. rewrite <- I1 in L.
-  destruct (loadMemDB_inv _ _ I2 L) as (D & Hi & F). split; [|auto].
-  constructor; cbn.
+  intros [I1 I2 I3 I4 I5 I6 I7 I8].
+  destruct (loadMemDB_inv _ I2) as (D & Hi & F & T).
+  unfold reload. rewrite <- I1. constructor; cbn [st_mem st_head st_mmeta st_compiled].
   - now rewrite D.
   - now rewrite D.
   - now rewrite Hi, D.
   - intro f. rewrite F, D, scan_counts_from, cget_scan_from. reflexivity.
   - rewrite F, scan_counts_from. apply nodup_scan_from. constructor.
   - intros k Hk. now apply load_meta_get.
+  - intros _. now rewrite T, D.
+  - intros b Hb. exact Hb.
 Qed.
 
 Lemma step_inv s o : Inv s -> Inv (fst (step repaired s o)).
 Proof.
   intro I. destruct o; simpl.
-  - destruct (putData repaired s key body valid user conds replace timeStr) eqn:E; simpl; try exact I.
+  - destruct (putData repaired s key body vd user conds replace timeStr) eqn:E; simpl; try exact I.
     eapply putData_inv; eauto.
   - destruct (st_locked s); [exact I|]. now apply putKVs_inv.
   - destruct (deleteData repaired s key) eqn:E; simpl; try exact I. eapply deleteData_inv; eauto.
-  - destruct (st_locked s || (3 <=? kind)); [exact I|]. destruct I as [I1 I2 I3 I4 I5 I6].
-    constructor; cbn; try assumption. intros k Hk. rewrite !mget_mset, I6 by exact Hk. reflexivity.
-  - destruct (st_locked s || (3 <=? kind)); [exact I|]. destruct I as [I1 I2 I3 I4 I5 I6].
-    constructor; cbn; try assumption. intros k Hk. rewrite !mget_mdel, I6 by exact Hk. reflexivity.
+  - destruct (st_locked s || (3 <=? kind)); [exact I|]. destruct I as [I1 I2 I3 I4 I5 I6 I7 I8].
+    constructor; cbn; try assumption.
+    + intros k Hk. rewrite !mget_mset, I6 by exact Hk. reflexivity.
+    + intros b. rewrite mget_mset. destruct (kind =? k_json_schema) eqn:E.
+      * apply N.eqb_eq in E. subst kind. rewrite N.eqb_refl. auto.
+      * rewrite N.eqb_sym, E. apply I8.
+  - destruct (st_locked s || (3 <=? kind)); [exact I|]. destruct I as [I1 I2 I3 I4 I5 I6 I7 I8].
+    constructor; cbn; try assumption.
+    + intros k Hk. rewrite !mget_mdel, I6 by exact Hk. reflexivity.
+    + intros b. rewrite mget_mdel, andb_true_r. destruct (kind =? k_json_schema) eqn:E; [discriminate|].
+      rewrite N.eqb_sym, E. apply I8.
   - destruct (st_locked s); [exact I|]. destruct I; constructor; cbn; assumption.
   - destruct (st_locked s); [|exact I]. destruct I; constructor; cbn; assumption.
-  - destruct (reload repaired s) eqn:E; simpl; try exact I. now destruct (reload_inv _ _ I E).
+  - now apply reload_inv.
 Qed.
 
 Lemma run_inv h : forall s s', Inv s -> run repaired s h = Ok s' -> Inv s'.
@@ -305,11 +318,12 @@ Section Reads.
 Variable rx : bytes -> option (bytes -> bool).
 
 Lemma read_eq s : Inv s -> forall r,
-  rres_equiv (read_mem rx repaired (st_mem s) (st_mmeta s) r) (read_store rx repaired (st_head s) r).
+  rres_equiv (read_mem rx repaired s r) (read_store rx repaired (st_head s) r).
 Proof.
-  intros [I1 I2 I3 I4 I5 I6] r.
+  intros [I1 I2 I3 I4 I5 I6 I7 I8] r.
   assert (Hrecs := recs_of_ids _ I2).
-  destruct r; cbn [read_mem read_store v_zero v_sel v_range repaired store_sel]; rewrite <- ?I1, ?I3.
+  destruct r; cbn [read_mem read_memdb read_store pos_counts v_zero v_sel v_range v_ftime repaired store_sel];
+    rewrite <- ?I1, ?I3.
   - apply rres_equiv_refl.
   - apply rres_equiv_refl.
   - apply rres_equiv_refl.
@@ -343,19 +357,23 @@ Proof.
     rewrite Hrecs. apply rres_equiv_refl.
   - (* metadata *)
     destruct (3 <=? kind) eqn:E; [apply rres_equiv_refl|]. apply N.leb_gt in E. rewrite I6 by exact E. apply rres_equiv_refl.
+  - (* fieldtimes *)
+    cbn [andb]. destruct (m_ftdirty (st_mem s)) eqn:D; [|rewrite (I7 eq_refl)]; apply rres_equiv_refl.
+  - apply rres_equiv_refl.
+  - destruct (3 <=? kind) eqn:E; [apply rres_equiv_refl|]. apply N.leb_gt in E. rewrite I6 by exact E. apply rres_equiv_refl.
+  - (* the schema in force *)
+    unfold schema_in_force. destruct (st_compiled s) as [b|] eqn:C; [rewrite (I8 b eq_refl)|]; apply rres_equiv_refl.
 Qed.
 
 (* C16 mem_eq_store *)
 Theorem mem_eq_store h s : run repaired init_state h = Ok s ->
   forall r,
-    rres_equiv (read_mem rx repaired (st_mem s) (st_mmeta s) r) (read_store rx repaired (st_head s) r)
-    /\ forall s', reload repaired s = Ok s' ->
-         st_head s' = st_head s
-         /\ rres_equiv (read_mem rx repaired (st_mem s') (st_mmeta s') r) (read_store rx repaired (st_head s) r).
+    rres_equiv (read_mem rx repaired s r) (read_store rx repaired (st_head s) r)
+    /\ st_head (reload repaired s) = st_head s
+    /\ rres_equiv (read_mem rx repaired (reload repaired s) r) (read_store rx repaired (st_head s) r).
 Proof.
   intros R r. pose proof (run_inv h _ _ inv_init R) as I. split; [now apply read_eq|].
-  intros s' L. destruct (reload_inv _ _ I L) as (I' & Hh & _). split; [exact Hh|].
-  rewrite <- Hh. now apply read_eq.
+  split; [reflexivity|]. apply (read_eq (reload repaired s)). now apply reload_inv.
 Qed.
 
 (* the driver's comparison: after commit + newversion the parent is read through the store path,
@@ -368,8 +386,9 @@ Theorem parent_child_agree h s s2 : run repaired init_state h = Ok s -> st_locke
 Proof.
   intros R U R2 r. pose proof (run_inv h _ _ inv_init R) as I.
   simpl in R2. rewrite U in R2. simpl in R2. apply Ok_inj in R2. subst s2.
-  eexists; eexists. cbn. split; [reflexivity|]. split; [reflexivity|]. split; [|reflexivity].
-  pose proof (read_eq s I r) as E. destruct r; exact E.
+  eexists; eexists. cbn [read_version nth_error st_parents option_map st_locked].
+  split; [reflexivity|]. split; [reflexivity|]. split; [|reflexivity].
+  rewrite andb_false_r. pose proof (read_eq s I r) as E. destruct r; exact E.
 Qed.
 End Reads.
 
@@ -381,9 +400,9 @@ Definition u1 : bytes := [117; 49].
 Definition u2 : bytes := [117; 50].
 Definition t0 : bytes := [84].
 Definition post_a (id : N) (v : json) (u : bytes) : op :=
-  OpPost id [(s_bodyid, JNum (Z.of_N id)); (fa, v)] true u [[]] false t0.
+  OpPost id [(s_bodyid, JNum (Z.of_N id)); (fa, v)] [] u [[]] false t0.
 Definition post_b (id : N) (v : json) (u : bytes) : op :=
-  OpPost id [(s_bodyid, JNum (Z.of_N id)); (fb, v)] true u [[]] false t0.
+  OpPost id [(s_bodyid, JNum (Z.of_N id)); (fb, v)] [] u [[]] false t0.
 
 Fixpoint nlist_eqb (a b : list N) : bool :=
   match a, b with [], [] => true | x :: a', y :: b' => (x =? y) && nlist_eqb a' b' | _, _ => false end.
@@ -391,7 +410,7 @@ Fixpoint nlist_eqb (a b : list N) : bool :=
 (* mem and store answers of variant V after history h *)
 Definition both (V : variant) (h : list op) (r : rreq) : option (rres * rres) :=
   match run V init_state h with
-  | Ok s => Some (read_mem no_rx V (st_mem s) (st_mmeta s) r, read_store no_rx V (st_head s) r)
+  | Ok s => Some (read_mem no_rx V s r, read_store no_rx V (st_head s) r)
   | _ => None
   end.
 
@@ -406,7 +425,7 @@ Lemma shipped_delete_refuted :
   /\ both shipped h_delete2 (RKeyRange [49] [57; 57]) = Some (XIds [10; 20], XIds [20]).
 Proof. vm_compute. repeat split. Qed.
 Lemma only_delete_unrepaired_refuted :
-  both (mkVar false true true true true true) h_delete2 RKeys = Some (XIds [10; 20], XIds [20]).
+  both (mkVar false true true true true true true true) h_delete2 RKeys = Some (XIds [10; 20], XIds [20]).
 Proof. vm_compute. reflexivity. Qed.
 
 (* (b) POST {"a":1} then POST {"a":null}: the counter of "a" stays at 1 in memory *)
@@ -415,13 +434,13 @@ Definition cnt_of (f : bytes) (r : rres) : option Z :=
   match r with XCounts l => @aget bytes Z bytes_eqb f l | _ => None end.
 Lemma shipped_counter_refuted :
   option_map (fun p => (cnt_of fa (fst p), cnt_of fa (snd p))) (both shipped h_null RFieldCounts) = Some (Some 1%Z, None)
-  /\ option_map (fun p => (cnt_of fa (fst p), cnt_of fa (snd p))) (both (mkVar true false true true true true) h_null RFieldCounts) = Some (Some 1%Z, None).
+  /\ option_map (fun p => (cnt_of fa (fst p), cnt_of fa (snd p))) (both (mkVar true false true true true true true true) h_null RFieldCounts) = Some (Some 1%Z, None).
 Proof. vm_compute. split; reflexivity. Qed.
 
 (* (e) POST 10 {"a":1}, POST 20 {"b":1}, DELETE 10: "a" is reported with count 0, fields lists "" *)
 Definition h_zero : list op := [post_a 10 (JNum 1) u1; post_b 20 (JNum 1) u1; OpDelete 10].
 Lemma zero_counter_refuted :
-  let V := mkVar true true false true true true in
+  let V := mkVar true true false true true true true true in
   option_map (fun p => (cnt_of fa (fst p), cnt_of fa (snd p))) (both V h_zero RFieldCounts) = Some (Some 0%Z, None)
   /\ exists l l', both V h_zero RFields = Some (XNames l, XNames l') /\ In [] l /\ ~ In [] l'.
 Proof.
@@ -432,11 +451,11 @@ Qed.
 (* (d) query?fields=b and keyrangevalues?fields=a_user on the store path *)
 Definition h_two : list op := [post_a 10 (JNum 1) u1; post_b 10 (JNum 2) u2].
 Lemma store_select_refuted :
-  let V := mkVar true true true false true true in
+  let V := mkVar true true true false true true true true in
   both V h_two (RQuery [[(fa, JNum 1)]] false [fb] (mkShow false false))
     = Some (XObjs [[(s_bodyid, JNum 10); (fb, JNum 2)]],
             XObjs [[(s_bodyid, JNum 10); (fb, JNum 2); (fa, JNum 1)]])
-  /\ both V h_two (RKeyRangeValues [48] [97] [fuser fa] (mkShow false false))
+  /\ both V h_two (RKeyRangeValues [48] [97] [fuser fa] (mkShow false false) 0)
     = Some (XKVs [(10, [(s_bodyid, JNum 10); (fuser fa, JStr u1)])], XKVs [(10, [(s_bodyid, JNum 10)])]).
 Proof. vm_compute. split; reflexivity. Qed.
 
@@ -444,28 +463,58 @@ Proof. vm_compute. split; reflexivity. Qed.
 Definition h_digits : list op := [post_a 5 (JNum 1) u1; post_a 10 (JNum 1) u1; post_a 100 (JNum 1) u1].
 Definition kv_ids (r : rres) : list N := match r with XKVs l => map fst l | XIds l => l | _ => [] end.
 Lemma store_range_refuted :
-  let V := mkVar true true true true false true in
+  let V := mkVar true true true true false true true true in
   option_map (fun p => (kv_ids (fst p), kv_ids (snd p))) (both V h_digits (RKeyRange [49] [49; 53])) = Some ([5; 10], [10])
   /\ option_map (fun p => (kv_ids (fst p), kv_ids (snd p)))
-       (both V h_digits (RKeyRangeValues [49] [49; 53] [] (mkShow false false))) = Some ([5; 10], [10; 100]).
+       (both V h_digits (RKeyRangeValues [49] [49; 53] [] (mkShow false false) 0)) = Some ([5; 10], [10; 100]).
 Proof. vm_compute. split; reflexivity. Qed.
 
 (* (i) POST json_schema, commit, restart, newversion: GET json_schema on the child *)
 Definition h_schema : list op := [OpMetaPost 0 [123; 125]; OpCommit; OpReload; OpNewVersion].
 Lemma meta_reload_refuted :
-  both (mkVar true true true true true false) h_schema (RMeta 0) = Some (XBytes None, XBytes (Some [123; 125])).
+  both (mkVar true true true true true false true true) h_schema (RMeta 0) = Some (XBytes None, XBytes (Some [123; 125])).
 Proof. vm_compute. reflexivity. Qed.
 
-(* a non-string *_time value panics inside storeAndUpdate (with the memdb mutex held) *)
-Lemma nonstring_time_panics V :
-  run V init_state [OpPost 1 [(s_bodyid, JNum 1); (ftime fa, JNum 5)] true u1 [[]] false t0] = Panic.
-Proof. destruct V as [[] [] [] [] [] []]; vm_compute; reflexivity. Qed.
+(* (f) fieldtimes: POST 10 {a, a_time 2020}, POST 20 {a, a_time 2022}, POST 10 {b}: the head says
+   2020, the head after a restart 2022; committed versions have no fieldtimes at all *)
+Definition y2020 : bytes := [50; 48; 50; 48].
+Definition y2022 : bytes := [50; 48; 50; 50].
+Definition h_ftimes : list op :=
+  [OpPost 10 [(s_bodyid, JNum 10); (fa, JNum 1); (ftime fa, JStr y2020)] [] u1 [[]] false t0;
+   OpPost 20 [(s_bodyid, JNum 20); (fa, JNum 1); (ftime fa, JStr y2022)] [] u1 [[]] false t0;
+   post_b 10 (JNum 1) u2].
+Definition time_of (f : bytes) (r : rres) : option bytes :=
+  match r with XTimes l => @aget bytes bytes bytes_eqb f l | _ => None end.
+Lemma fieldtimes_refuted :
+  match run interim init_state h_ftimes with
+  | Ok s => (time_of fa (read_mem no_rx interim s RFieldTimes),
+             time_of fa (read_mem no_rx interim (reload interim s) RFieldTimes),
+             read_store no_rx interim (st_head s) RFieldTimes)
+  | _ => (None, None, XPanic)
+  end = (Some y2020, Some y2022, XErr).
+Proof. vm_compute. reflexivity. Qed.
+
+(* (h) POST json_schema, DELETE json_schema: the deleted schema stays in force on the head *)
+Definition h_schdel : list op := [OpMetaPost 0 [123; 125]; OpMetaDelete 0].
+Lemma schema_delete_refuted :
+  both interim h_schdel RSchemaInForce = Some (XBytes (Some [123; 125]), XBytes None).
+Proof. vm_compute. reflexivity. Qed.
+
+(* a non-string *_time value is rejected (since the C20 repair; it used to panic with the memdb
+   mutex held) *)
+Lemma nonstring_time_rejected V s :
+  step V s (OpPost 1 [(s_bodyid, JNum 1); (ftime fa, JNum 5)] [] u1 [[]] false t0) = (s, Err).
+Proof.
+  simpl. unfold putData. destruct (st_locked s); [reflexivity|]. cbn.
+  destruct (match schema_in_force s with Some _ => true | None => true end) eqn:E; [|destruct (schema_in_force s); discriminate].
+  destruct (schema_in_force s); reflexivity.
+Qed.
 
 (* non-vacuity of mem_eq_store: a history with every kind of request that runs to completion *)
 Definition h_sample : list op :=
   [post_a 10 (JNum 1) u1; post_b 10 (JStr [120]) u2; post_a 7 (JArr [JNum 1; JNum 2]) u1;
-   OpPostKVs [mkKV 100 [(s_bodyid, JNum 100); (fa, JNull)] true t0; mkKV 5 [(s_bodyid, JNum 5)] true t0] u2 [fa] true;
-   OpMetaPost 1 [49]; OpDelete 7; OpCommit; OpPost 3 [(s_bodyid, JNum 3)] true u1 [[]] false t0;
+   OpPostKVs [mkKV 100 [(s_bodyid, JNum 100); (fa, JNull)] [] t0; mkKV 5 [(s_bodyid, JNum 5)] [] t0] u2 [fa] true;
+   OpMetaPost 1 [49]; OpDelete 7; OpCommit; OpPost 3 [(s_bodyid, JNum 3)] [] u1 [[]] false t0;
    OpNewVersion; OpReload; post_a 10 JNull u2; OpMetaDelete 1; OpDelete 100].
 Lemma sample_runs : exists s, run repaired init_state h_sample = Ok s /\ map fst (m_data (st_mem s)) = [5; 10]
                               /\ length (st_parents s) = 1%nat.
